@@ -108,6 +108,10 @@ class State:
     def assume(self, f):
         if isinstance(f, bool):
             f = z3.BoolVal(f)
+        if z3.is_and(f):
+            for c in f.children():      # conjuncts separately: quantifier-free ones stay usable for cheap feasibility checks
+                self.assume(c)
+            return
         self.pc.append(f)
 
     def hyps(self):
